@@ -151,11 +151,19 @@ func (k Keeper) ClaimSpendingPool(ctx sdk.Context, poolName string, sender sdk.A
 			duration = int64(pool.ClaimExpiry)
 		}
 		amount := rate.Amount.Mul(sdk.NewDec(duration)).Mul(weight).RoundInt()
+		if amount.IsNegative() { // a negative weight or rate: sdk.NewCoin would panic
+			return types.ErrNotEnoughPoolBalance
+		}
 		rewards = rewards.Add(sdk.NewCoin(rate.Denom, amount))
 	}
 
-	// update pool to reduce pool's balance
-	pool.Balances = sdk.Coins(pool.Balances).Sub(rewards...)
+	// update pool to reduce pool's balance; Coins.Sub panics below zero and this also runs inside
+	// the gov end-blocker (SpendingPoolDistribution proposal), where a panic halts the chain
+	balances, negative := sdk.Coins(pool.Balances).SafeSub(rewards...)
+	if negative {
+		return types.ErrNotEnoughPoolBalance
+	}
+	pool.Balances = balances
 	k.SetSpendingPool(ctx, *pool)
 
 	err := k.bk.SendCoinsFromModuleToAccount(ctx, types.ModuleName, sender, rewards)
